@@ -433,22 +433,64 @@ def currently_exiting_context(frame: types.FrameType) -> Optional[ExitingContext
             if not backtrack_over_load_none():
                 return None
         # offs is now the instruction right before the first LOAD_CONST.
-        # We expect this to be the last instruction that is covered
-        # by the exception handler block that unwinds to call this context's
-        # __exit__ in the exception case. Possible exceptions to that rule:
-        # - sometimes there's a SWAP before the LOAD_CONSTs
-        # - if the with stmt has no body, there might be a NOP to attach
-        #   line number information to
+        # If control can fall through from it into the __exit__ call, then
+        # it is part of the body of the 'with' block being exited. It might
+        # be preceded by:
+        # - a SWAP, if a return value is being carried across the call
+        # - a NOP to attach line number information to, if the with
+        #   statement has no body
         # Neither of these are covered by the exception handler block.
-        for _, end, target, *_ in _parse_exception_table(frame.f_code):
-            if end == offs or (
-                end == offs - 2 and code[offs] in (op["SWAP"], op["NOP"])
+        first_load = offs + 2
+        while offs and code[offs] in (op["SWAP"], op["NOP"]):
+            offs -= 2
+        # Find the start of that instruction (it might have inline CACHE
+        # entries after it, which read as CACHE opcodes)
+        insn_start = offs
+        while insn_start and code[insn_start] == op["CACHE"]:
+            insn_start -= 2
+        # If that instruction can't fall through (because the with body
+        # ended with a return, raise, loop, or the like), then the __exit__
+        # call is only reachable through a jump from somewhere else inside
+        # the with body, so look at the source of such a jump instead.
+        if code[insn_start] in {
+            op.get(name)
+            for name in (
+                "RETURN_VALUE",
+                "RETURN_CONST",
+                "JUMP_FORWARD",
+                "JUMP_BACKWARD",
+                "JUMP_BACKWARD_NO_INTERRUPT",
+                "RERAISE",
+                "RAISE_VARARGS",
+            )
+        }:
+            for insn in dis.get_instructions(frame.f_code):
+                if (
+                    insn.opcode in dis.hasjrel or insn.opcode in dis.hasjabs
+                ) and offs < insn.argval <= first_load:
+                    offs = insn.offset
+                    break
+        # Now `offs` is inside the body of the with block that is exiting,
+        # but maybe also inside some try/except/finally blocks nested
+        # within that body. Follow the chain of exception handlers outward
+        # until we find one that calls __exit__.
+        table = list(_parse_exception_table(frame.f_code))
+        current = offs
+        for _ in range(len(table) + 1):
+            for start, end, target, *_ in table:
+                if start <= current <= end:
+                    break
+            else:
+                break
+            if code[target : target + 4 : 2] == bytes(
+                [op["PUSH_EXC_INFO"], op["WITH_EXCEPT_START"]]
             ):
                 return ExitingContext(is_async=is_async, cleanup_offset=target)
+            current = target
         warnings.warn(
             f"Surprise during analysis of {frame.f_code!r}: couldn't find an "
-            f"exception table entry ending at {offs} just before the call to "
-            f"__exit__ -- please file a bug",
+            f"exception table entry for a with block covering {offs} just before "
+            f"the call to __exit__ -- please file a bug",
             InspectionWarning,
         )
         return None
